@@ -149,8 +149,23 @@ def r2_nan_fallback(ctx):
     r = repl[0]
     var = norm(r.ast.targets[0])
     conds = conditions_at(r.ast)
-    nan_atoms = [a for a in conds if a.pol and a.text in (
-        f"np.isnan({var})", f"numpy.isnan({var})")]
+    def nan_or_outside(a):
+        """isnan(var), or isnan(var) or <var outside the data>"""
+        if a.text in (f"np.isnan({var})", f"numpy.isnan({var})"):
+            return True
+        nd = a.node
+        if isinstance(nd, ast.BoolOp) and isinstance(nd.op, ast.Or):
+            texts = [norm(v) for v in nd.values]
+            if not any(t in (f"np.isnan({var})", f"numpy.isnan({var})")
+                       for t in texts):
+                return False
+            rest = [v for v in nd.values if norm(v) not in (
+                f"np.isnan({var})", f"numpy.isnan({var})")]
+            return all(var in norm(v) and ("0" in norm(v)
+                                           or "size" in norm(v))
+                       for v in rest)
+        return False
+    nan_atoms = [a for a in conds if a.pol and nan_or_outside(a)]
     others = [a for a in conds if a not in nan_atoms
               and not from_early_exit(a, r.ast)]
     ctx.check(bool(nan_atoms) and not others, r.ast,
@@ -161,7 +176,7 @@ def r2_nan_fallback(ctx):
               f"fallback value {norm(r.ast.value)}",
               "the fallback is not the middle of the (clipped) data")
     tests = [n for n in cfg.nodes if n.kind == "test"
-             and norm(n.ast) in (f"np.isnan({var})", f"numpy.isnan({var})")]
+             and f"np.isnan({var})" in norm(n.ast).replace("numpy.", "np.")]
     for rt in rets:
         ok = tests and any(cfg.dominates(t.id, rt.id) for t in tests)
         ctx.check(bool(ok), rt.ast, f"{norm(rt.ast)} after the NaN test",
@@ -355,6 +370,82 @@ def r4_strict_threshold(ctx):
                   "index 0 is returned for every noise-free curve")
 
 
+def r5_index_range(ctx):
+    """An index taken from an unbounded fit parameter can be negative or
+    beyond the data.  Either the parameter is bounded to [0, size), or
+    compute_poc treats an out-of-range result like NaN (centre fallback)."""
+    pm = ctx.repo.mod("poc")
+    cp_fn = pm.func("compute_poc")
+    # (a) does compute_poc reject out-of-range indices?
+    repl = [st for st in walk_no_nested(cp_fn, False)
+            if isinstance(st, ast.Assign) and "size // 2" in norm(st.value)]
+    global_ok = False
+    if repl:
+        var = norm(repl[0].targets[0])
+        tests = [p.test for p in _parents_if(repl[0])]
+        low = high = False
+        for t in tests:
+            for c in ast.walk(t):
+                if not isinstance(c, ast.Compare):
+                    continue
+                txt = norm(c)
+                if var not in txt:
+                    continue
+                if "0" in [norm(x) for x in [c.left] + c.comparators]:
+                    low = True
+                if any(("size" in norm(x) or "len(" in norm(x))
+                       for x in [c.left] + c.comparators):
+                    high = True
+        global_ok = low and high
+    n = 0
+    for f, kws, d in _estimators(ctx):
+        ident = kws.get("identifier")
+        for st in walk_no_nested(f, False):
+            if not (isinstance(st, ast.Assign) and isinstance(
+                    st.value, ast.Call) and call_name(st.value) == "int"
+                    and st.value.args):
+                continue
+            a = st.value.args[0]
+            # int(<fit result>.params["name"][.value])
+            while isinstance(a, ast.Attribute) and a.attr == "value":
+                a = a.value
+            if not (isinstance(a, ast.Subscript) and const_str(a.slice)
+                    and norm(a.value).endswith(".params")):
+                continue
+            pname = const_str(a.slice)
+            n += 1
+            bounded = False
+            for c in calls_in(f, nested=True):
+                if isinstance(c.func, ast.Attribute) and c.func.attr == \
+                        "add" and c.args and const_str(c.args[0]) == pname:
+                    kw = {k.arg: k.value for k in c.keywords}
+                    lo = kw.get("min")
+                    hi = kw.get("max")
+                    bounded = lo is not None and norm(lo) in ("0", "0.0") \
+                        and hi is not None and ("size" in norm(hi)
+                                                or "len(" in norm(hi))
+            ctx.check(bounded or global_ok, st,
+                      f"{ident}: index from parameter '{pname}' stays inside "
+                      "the data",
+                      f"estimator '{ident}' returns int(params['{pname}']) "
+                      f"of an unbounded fit parameter and compute_poc only "
+                      f"replaces NaN: for curves without a baseline the "
+                      f"fitted '{pname}' can be negative (or beyond the "
+                      f"end), and compute_poc returns an index outside "
+                      f"the data instead of the documented centre fallback")
+    ctx.floor("indices taken from fit parameters", n, 3)
+
+
+def _parents_if(node):
+    out = []
+    p_ = getattr(node, "_parent", None)
+    while p_ is not None:
+        if isinstance(p_, ast.If):
+            out.append(p_)
+        p_ = getattr(p_, "_parent", None)
+    return out
+
+
 RULES = [
     ("C08-R1", "returned index invariant under a*force + b (scale types)",
      r1_affine_invariance),
@@ -363,4 +454,6 @@ RULES = [
     ("C08-R3", "every estimator size-guards reductions of its input",
      r3_degenerate_guards),
     ("C08-R4", "baseline-deviation test is strict", r4_strict_threshold),
+    ("C08-R5", "an index taken from a fit parameter cannot leave the data",
+     r5_index_range),
 ]
